@@ -963,7 +963,8 @@ class MyPyAstVisitor:
                 if isinstance(inferred_default_value, bool | int | float | NoneType):
                     default_value = inferred_default_value
                 elif isinstance(inferred_default_value, str):
-                    default_value = f'"{inferred_default_value}"'
+                    escaped_value = inferred_default_value.replace("\\", "\\\\").replace('"', '\\"')
+                    default_value = f'"{escaped_value}"'
                 else:  # pragma: no cover
                     raise TypeError("Default value got an unsupported value.")
 
